@@ -25,7 +25,7 @@ echo "with change:    $(echo "$WITH" | tr '\n' ' ' | cut -c1-200)"
 echo "without change: $(echo "$WITHOUT" | tr '\n' ' ' | cut -c1-200)"
 if echo "$WITH" | grep -q "^ok" ; then echo "DEMO DOES NOT FAIL WITH CHANGE"; exit 6; fi
 if ! echo "$WITHOUT" | grep -q "^ok" ; then echo "DEMO DOES NOT PASS WITHOUT CHANGE"; exit 7; fi
-OUT=/verif/seeded/$PROP-$K
+OUT=/verif/seeded/$PROP-${OUTK:-$K}
 mkdir -p $OUT
 cp $SRC/patch.diff $OUT/patch.diff
 cp $DEMO $OUT/$(basename $DEMO)
